@@ -22,11 +22,11 @@ import (
 type RunningCase struct {
 	Handlers []RunH `json:"handlers"`
 	Pubs     int    `json:"pubs"`
-	GapMs    int    `json:"gap_ms"`    // fake time between publishes
-	CancelMs int    `json:"cancel_ms"` // fake time (from the first publish) at which the contexts are cancelled
-	OneCtx   bool   `json:"one_ctx,omitempty"` // all publishes share one context
+	GapMs    int    `json:"gap_ms"`             // fake time between publishes
+	CancelMs int    `json:"cancel_ms"`          // fake time (from the first publish) at which the contexts are cancelled
+	OneCtx   bool   `json:"one_ctx,omitempty"`  // all publishes share one context
 	Shutdown bool   `json:"shutdown,omitempty"` // Shutdown(background) instead of Wait
-	WaitMs   int    `json:"wait_ms"` // fake time at which Wait/Shutdown is called (after the last publish)
+	WaitMs   int    `json:"wait_ms"`            // fake time at which Wait/Shutdown is called (after the last publish)
 	Procs    int    `json:"procs"`
 }
 
